@@ -198,7 +198,7 @@ HARNESSES = [
     dict(name='getitem-unbounded', fn='h_getitem_unbounded', property='C15', native=False, crosscheck=0,
          functions=['plinio/cost/cost_spec.py::CostSpec.__getitem__'],
          quick=[{}], thorough=[{}]),
-    dict(name='builtin-constraints', fn='h_builtin_constraints', property='C15',
+    dict(name='builtin-constraints', fn='h_builtin_constraints', property=['C15', 'C04', 'C16'],
          functions=['plinio/cost/pattern.py::conv_dw_constraint', 'plinio/cost/pattern.py::conv_3_constraint'],
          quick=[{}], thorough=[{}]),
     dict(name='defaults', fn='h_defaults', property='C15',
